@@ -4,7 +4,7 @@
 (*   roots, names   the root parsers of the process and all parsers (roots and their sub-parsers)                    *)
 (*   ops            table of abstract calls (the records of Context.tla)                                             *)
 (*   posts          table of residual states observed from outside after a call                                      *)
-(*                  [pending, args, shtab, dcf, pk, sap, dk, managed]  ("n/a": component not observable)                  *)
+(*                  [hskip, pending, args, shtab, dcf, pk, sap, dk, managed]  ("n/a": component not observable)                  *)
 (*   outs           table of outcomes [c |-> class, d |-> digest of channel/exit status/stdout/result/message]       *)
 (*   traces         one sequence of steps per history (each history ran in its own process, from the initial         *)
 (*                  state): step = [o, q, r, f, p] = call, observed post state, outcome on the REUSED parser,        *)
@@ -15,7 +15,11 @@
 (*             pending on that parser and the reused outcome is the one the model predicts while both fresh outcomes  *)
 (*             are the Ref outcome: "ref-pending-as-alg" (the recorded deviation; impossible with ClearOnError = TRUE);  *)
 (*             likewise "ref-shtab-as-alg" when the model says --print_shtab=<shell> was run on that root parser and    *)
-(*             the call is a parse_args that fails as predicted; a difference only against the                         *)
+(*             the call is a parse_args that fails as predicted; "ref-helpskip-as-alg" when the MODEL says the call     *)
+(*             prints the class help of a class-typed argument from a dict in which an earlier help request for a       *)
+(*             callable type left skip = {k} (run.dev), the answer class is the model's, the fresh parser in the SAME   *)
+(*             process answers identically (the class-level dict is process-wide) and the pristine                     *)
+(*             process gives the Ref class; a difference only against the                                               *)
 (*             pristine process: "ref-process"; anything else: "ref".                                                *)
 (*   alg-out   the class of the reused outcome is the model's                                                        *)
 (*   gamma     the class of the pristine outcome is RefOutcome (cross-check of the declared call attributes)         *)
@@ -55,14 +59,16 @@ CheckStep ==
   IN /\ (s.f = 0 \/ (ru = fr /\ ru = pr))                       \* s.f = 0: a positioning step of a tour, not probed on a fresh parser
         \/ Say(IF PendingResidue(o, res) /\ ru.c = run.out /\ fr.c = exp /\ pr.c = exp /\ fr = pr THEN "ref-pending-as-alg"
                ELSE IF ShtabResidue(o, res) /\ ru.c = run.out /\ fr.c = exp /\ pr.c = exp /\ fr = pr THEN "ref-shtab-as-alg"
+               ELSE IF run.dev /\ HelpSkipResidue(o, res) /\ o.hscope = "shared" /\ ru.c = run.out /\ ru = fr /\ pr.c = exp THEN "ref-helpskip-as-alg"
                ELSE IF ru = fr THEN "ref-process" ELSE "ref",
-               IF ShtabResidue(o, res) THEN "broken" ELSE res.pending[o.p])
+               IF ShtabResidue(o, res) THEN "broken" ELSE IF run.dev THEN "skip=" \o res.hskip[o.hscope] ELSE res.pending[o.p])
      /\ ru.c = run.out \/ Say("alg-out", run.out \o " expected, observed " \o ru.c)
      /\ pr.c = exp \/ Say("gamma", exp \o " expected, observed " \o pr.c)
      /\ q.pending = run.res.pending \/ Say("alg-post:pending", ToString(run.res.pending))
      /\ q.args = run.res.args \/ Say("alg-post:args", ToString(run.res.args))
      /\ q.shtab = run.res.shtab \/ Say("alg-post:shtab", ToString(run.res.shtab))
      /\ q.dcf = run.res.dcf \/ Say("alg-post:dcf", ToString(run.res.dcf))
+     /\ (\A sc \in HelpScopes : Same(q.hskip[sc], run.res.hskip[sc])) \/ Say("alg-post:hskip", ToString(run.res.hskip))
      /\ Same(q.pk, run.res.pk) \/ Say("alg-post:pk", run.res.pk)
      /\ Same(q.sap, run.res.sap) \/ Say("alg-post:sap", run.res.sap)
      /\ Same(q.dk, run.res.dk) \/ Say("alg-post:dk", run.res.dk)
